@@ -192,7 +192,7 @@ check('C14',
            'against f8c on every group of every schema (f8c prints each group\'s hash and whether it shares static data into the generated header). Per message: member set, order, types, '
            'mandatory flags of the group as read back through the generated traits must be those of its own definition, and every lattice message populated with its own members in its own '
            'order must pass the wire-image and round-trip oracles.',
-      level_note='Scope tags pair:<distinct-sets|nested-differs|same-set-different-order|same-set-different-flags|hash-collision> and side:<first|second> say which kind of pair a case belongs to. '
+      level_note='Scope tags pair:<distinct-sets|nested-differs|same-set-different-order|same-set-different-flags|hash-collision|nested-hash-collision> and side:<first|second> say which kind of pair a case belongs to. '
                  'The property text names different member fields and different nested groups; pairs that differ only in order or flags are part of the space and tagged separately. '
                  'Only the first colliding pairs of the search become schemas (the search itself is complete over its universe and reports the totals).',
       rule='program = one schema; disagreements_checked = metadata attribute comparisons + lattice messages judged + hash cross-checks; non-trivial = message metadata unit or lattice message with a populated group',
